@@ -267,8 +267,12 @@ def san(s):
 class Lowering:
     def __init__(self, ast, src_path=None):
         if isinstance(ast, str):
+            def hook(d):
+                d.pop('loc', None)
+                d.pop('range', None)
+                return d
             with open(ast) as f:
-                ast = json.load(f)
+                ast = json.load(f, object_hook=hook)
         self.ast = ast
         self.src_path = src_path
         self.by_id = {}
@@ -296,6 +300,24 @@ class Lowering:
         self.flat_of_mangled = {}
         self.stubs = set()           # flat names the caller wants as prototype only
         self.cur_fn = None
+
+    def fork(self):
+        """a lowering with fresh request state that shares this one's (read-only) index"""
+        import copy
+        o = copy.copy(self)
+        o.needed_funcs = []
+        o.needed_set = set()
+        o.proto_only = set()
+        o.needed_records = []
+        o.needed_records_set = set()
+        o.needed_enums = []
+        o.needed_globals = []
+        o.loop_counts = {}
+        o.extern_calls = set()
+        o.extern_protos = {}
+        o.flat_of_mangled = {}
+        o.cur_fn = None
+        return o
 
     # ---------------------------------------------------------------- indexing
     def _index(self, n, scope):
@@ -1562,7 +1584,7 @@ class Lowering:
                 out.append('%s;' % self.decl(t, nm))
         return '\n'.join(out)
 
-    def emit(self, header='', splice=None):
+    def emit(self, header='', splice=None, split=False):
         """returns the C translation unit. splice(flat, sig, body) may rewrite a function's text
         (contract insertion)."""
         protos = []
@@ -1587,16 +1609,74 @@ class Lowering:
             if ft.variadic:
                 ps += ', ...'
             eprotos.append(self.decl(ft.ret, '%s(%s)' % (nm, ps)) + ';')
-        out = [header, types, globs, '\n'.join(eprotos), '\n'.join(protos)]
+        part1 = '\n\n'.join([header, types, globs, '\n'.join(eprotos), '\n'.join(protos)]) + '\n'
+        out = []
         for flat, sig, body in defs:
             if splice:
                 out.append(splice(flat, sig, body))
             elif body is not None:
                 out.append(sig + '\n' + body)
-        text = '\n\n'.join(out) + '\n'
-        if '\x00ARROW\x00' in text:
+        part2 = '\n\n'.join(out) + '\n'
+        if '\x00ARROW\x00' in part1 + part2:
             raise LoweringError('unresolved anonymous arrow member access')
-        return text
+        if split:
+            return part1, part2
+        return part1 + '\n' + part2
+
+    def cxx_record_name(self, flat):
+        r = self._find_record(flat)
+        return '::'.join(r.get('_scope', ()) + (r['_qname'],))
+
+    def emit_adapters(self):
+        """C++ text mapping the flat C names onto the real gdstk entities (native replay side)"""
+        out = ['// generated by cxx2c: adapters from flat C names to the real C++ entities']
+        for en in self.needed_enums:
+            e = self._find_enum(en)
+            q = '::'.join(e.get('_scope', ()) + (e['name'],))
+            out.append('typedef %s %s;' % (q, en))
+            for c in e.get('inner', []):
+                if c.get('kind') == 'EnumConstantDecl':
+                    out.append('static const %s %s_%s = %s::%s;' % (q, en, c['name'], q, c['name']))
+        for rn in self.needed_records:
+            out.append('typedef %s %s;' % (self.cxx_record_name(rn), rn))
+        seen = set()
+        for g in self.needed_globals:
+            nm = self.global_name(g)
+            if nm in seen:
+                continue
+            seen.add(nm)
+            sc = g.get('_scope', ())
+            if sc and sc[0] == 'gdstk' and len(sc) == 1:
+                out.append('#define %s gdstk::%s' % (nm, g['name']))
+        for m in self.needed_funcs:
+            d = self.definition(m) or self.funcs_by_mangled[m][0]
+            flat, sig, ret = self._signature(m, d)
+            ft = self.parse_type(d['type'])
+            pv = [c for c in d.get('inner', []) if c.get('kind') == 'ParmVarDecl']
+            args = []
+            for idx, p in enumerate(pv):
+                nm = p.get('name') or ('arg%d' % idx)
+                pt = self.parse_type(p['type'])
+                args.append(('*' + nm) if pt.kind == 'ref' else nm)
+            name = d['name']
+            targs = [a for a in d.get('inner', []) if a.get('kind') == 'TemplateArgument']
+            tsuffix = ''
+            if targs:
+                tsuffix = '<' + ', '.join(self._targ_str(a) for a in targs) + '>'
+            is_method = d['kind'] == 'CXXMethodDecl' and d.get('storageClass') != 'static'
+            if is_method:
+                call = 'this_->%s%s(%s)' % (name, tsuffix, ', '.join(args))
+            else:
+                sc = d.get('_scope', ())
+                call = '%s%s(%s)' % ('::'.join(sc + (name,)), tsuffix, ', '.join(args))
+            if ret.kind == 'ref':
+                call = '&(%s)' % call
+            if ret.kind == 'base' and ret.name == 'void':
+                body = '{ %s; }' % call
+            else:
+                body = '{ return %s; }' % call
+            out.append('static inline %s %s' % (sig, body))
+        return '\n'.join(out) + '\n'
 
     def function_table(self):
         """flat name -> dict(mangled, qualified, type, has_body, loops)"""
